@@ -47,9 +47,8 @@ func (s *c01state) key() string {
 		ks = append(ks, k+"="+v)
 	}
 	sort.Strings(ks)
-	var b strings.Builder
-	canonJSON(s.Step, &b)
-	return b.String() + "|" + strings.Join(ks, ";") + "|" + s.Repo + "|" + s.Rec.Algorithm + "|" + strings.Join(s.Rec.SignedFields, ",") + "|" + s.Rec.Value + "|" + s.Key
+	// the exact document (key order and number spelling included): re-orderings and 1 -> 1.0 are states of their own
+	return s.Step.JSON() + "|" + strings.Join(ks, ";") + "|" + s.Repo + "|" + s.Rec.Algorithm + "|" + strings.Join(s.Rec.SignedFields, ",") + "|" + s.Rec.Value + "|" + s.Key
 }
 
 type c01world struct {
@@ -389,8 +388,11 @@ func c01run(w *report.W) {
 		w.HarnessError("keys: %v", err)
 		return
 	}
-	depth := 2
 	for _, in := range sigInitials {
+		depth := 2
+		if w.Thorough() && (in.Name == "minimal" || in.Name == "anon-matrix") {
+			depth = 3 // three mutations: e.g. change, neutral re-spelling, revert
+		}
 		c01explore(w, in, "EdDSA#0", depth, sigInitials)
 	}
 	for _, kind := range []string{"ES512", "PS512", "ES256-signer"} {
@@ -406,8 +408,8 @@ func c01run(w *report.W) {
 		}
 	}
 	if w.Shard == 0 {
-		w.Sample(c01replay{"rich", "EdDSA#0", []string{"step:seq-swap[0,1]@.plugins", "rec:restore"}})
-		w.Sample(c01replay{"rich", "EdDSA#0", []string{"step:map-key-value-boundary[image]@.plugins[0].github.com/buildkite-plugins/docker-buildkite-plugin#v1"}})
+		w.Sample(c01replay{"rich", "EdDSA#0", []string{"step:seq-swap[0,1]@.plugins", "step:seq-swap[0,1]@.plugins"}})
+		w.Sample(c01replay{"rich", "EdDSA#0", []string{"step:map-key-value-boundary[image]@.plugins[0].docker#v1"}})
 	}
 }
 
@@ -453,12 +455,12 @@ func c01replayFn(payload json.RawMessage) (string, bool) {
 func init() {
 	register(&report.Check{
 		ID: "C01",
-		Rule: "explicit-state BFS over the mutation graph of signed states (step JSON, verification env, repository URL, signature record, key): from four signed initial states (minimal; rich with nested plugin configs, " +
+		Rule: "explicit-state BFS over the mutation graph of signed states (step JSON, verification env, repository URL, signature record, key): from five signed initial states (minimal; rich with nested plugin configs, " +
 			"step env, matrix with adjustments, pipeline env of three variables one of them shadowed; anonymous matrix with empty step env; adjustment-only matrix with an empty-valued pipeline variable), every single-point " +
 			"mutation at every position is a transition (per string: change first char, drop last / middle char, append, append space, prepend newline; per collection: remove, duplicate, swap adjacent, reorder, append, empty, " +
 			"rename key, key/value and item/item boundary shifts; scalar re-typing; nil/empty and short/canonical spellings; unsigned fields; env: change / remove / empty / rename each variable, add unrelated, move variables " +
 			"between step env and pipeline env; repository URL; record: 8 algorithm names, drop / rename each field, add env:: or unknown fields, corrupt / truncate / strip / splice the value, splice whole records; key: second key " +
-			"of the same kind and kid, keys of the other kinds); depth 2 with EdDSA (includes mutate-then-revert and neutral-then-semantic), depth 1 (thorough: partly 2) with ES512, PS512 and an ES256 crypto.Signer. " +
+			"of the same kind and kid, keys of the other kinds); depth 2 with EdDSA (includes mutate-then-revert and neutral-then-semantic; thorough: depth 3 from two small initial states), depth 1 (thorough: partly 2) with ES512, PS512 and an ES256 crypto.Signer. " +
 			"Invariant in every state: Verify == nil <=> harness canonical form == signed form and record original and key the signing key. States deduplicated on the full state; non-trivial = every mutated state.",
 		Assumptions: []string{
 			"cryptography is a black box that accepts exactly what it signed",
